@@ -21,6 +21,13 @@ pub struct Broker {
     pub injected: bool,
     pub inject_acked: bool,
     pub trailing_partial_at_close: Vec<usize>,
+    /// the injected server publish is QoS 2 (packet id 78): PUBREC seen from the client
+    pub inject_rec_seen: bool,
+    /// QoS 2 publishes of the client the session holds (PUBREC sent, PUBREL not yet seen)
+    pub qos2_held: Vec<u16>,
+    /// (topic, times handed to subscribers) for the client's QoS 2 publishes
+    pub qos2_deliveries: Vec<(String, usize)>,
+    pub protocol_problems: Vec<String>,
 }
 
 impl Broker {
@@ -72,10 +79,11 @@ impl Broker {
                 self.connack_queued = true;
                 self.reply(&Pkt::Connack(VConnack { session_present, ..Default::default() }));
                 if session_present && self.injected && !self.inject_acked {
-                    // unacknowledged QoS1 message of the resumed session is delivered again
-                    if let Some(bytes) = self.inject_after_suback.clone() { self.to_client.extend(bytes); }
+                    // unacknowledged message of the resumed session is delivered again (QoS 2 after PUBREC: its PUBREL)
+                    if self.inject_rec_seen { self.reply(&Pkt::Pubrel(VAck { packet_id: 78, ..Default::default() })); }
+                    else if let Some(bytes) = self.inject_after_suback.clone() { self.to_client.extend(bytes); }
                 }
-                if !session_present { self.injected = false; }
+                if !session_present { self.injected = false; self.inject_rec_seen = false; self.qos2_held.clear(); }
             }
             Pkt::Subscribe(s) => {
                 self.reply(&Pkt::Suback(VMultiAck { packet_id: s.packet_id, reason_codes: vec![1; s.subscriptions.len()], ..Default::default() }));
@@ -86,9 +94,27 @@ impl Broker {
             Pkt::Unsubscribe(u) => { self.reply(&Pkt::Unsuback(VMultiAck { packet_id: u.packet_id, reason_codes: vec![0; u.topic_filters.len()], ..Default::default() })); }
             Pkt::Publish(p) => {
                 if p.qos == 1 { self.reply(&Pkt::Puback(VAck { packet_id: p.packet_id, ..Default::default() })); }
-                if p.qos == 2 { self.reply(&Pkt::Pubrec(VAck { packet_id: p.packet_id, ..Default::default() })); }
+                if p.qos == 2 {
+                    if !self.qos2_held.contains(&p.packet_id) {
+                        // a new message as far as the session can tell: it goes to the subscribers
+                        self.qos2_held.push(p.packet_id);
+                        match self.qos2_deliveries.iter_mut().find(|(t, _)| *t == p.topic) { Some(entry) => entry.1 += 1, None => self.qos2_deliveries.push((p.topic.clone(), 1)) }
+                    }
+                    self.reply(&Pkt::Pubrec(VAck { packet_id: p.packet_id, ..Default::default() }));
+                }
             }
-            Pkt::Pubrel(a) => { self.reply(&Pkt::Pubcomp(VAck { packet_id: a.packet_id, ..Default::default() })); }
+            Pkt::Pubrel(a) => {
+                self.qos2_held.retain(|id| *id != a.packet_id);
+                self.reply(&Pkt::Pubcomp(VAck { packet_id: a.packet_id, ..Default::default() }));
+            }
+            Pkt::Pubrec(a) => {
+                if a.packet_id == 78 && self.injected { self.inject_rec_seen = true; self.reply(&Pkt::Pubrel(VAck { packet_id: 78, ..Default::default() })); }
+                else { self.protocol_problems.push(format!("PUBREC for packet id {} the server never used", a.packet_id)); }
+            }
+            Pkt::Pubcomp(a) => {
+                if a.packet_id == 78 && self.inject_rec_seen { self.inject_acked = true; }
+                else { self.protocol_problems.push(format!("PUBCOMP for packet id {} without a PUBREL from the server", a.packet_id)); }
+            }
             Pkt::Pingreq => { self.reply(&Pkt::Pingresp); }
             Pkt::Puback(a) => { if a.packet_id == 77 { self.inject_acked = true; } }
             Pkt::Disconnect(_) => { self.disconnect_seen = true; }
@@ -100,4 +126,10 @@ impl Broker {
         let n = max.min(self.to_client.len());
         self.to_client.drain(..n).collect()
     }
+}
+
+/// The server publish injected after the SUBACK: QoS 1 (packet id 77) for workload 0, QoS 2 (packet id 78) for workload 1.
+pub fn injected_publish(workload: u8, payload: &[u8]) -> Vec<u8> {
+    let (qos, packet_id) = if workload == 1 { (2, 78) } else { (1, 77) };
+    refcodec::encode(&Pkt::Publish(VPublish { topic: "in/big".into(), qos, packet_id, payload: Some(payload.to_vec()), ..Default::default() }), false).unwrap()
 }
